@@ -21,6 +21,7 @@ var oddPool = []string{
 	"+extra/cheese", "=sum", "@work, \"menu\" 2x", "A b", "B,1", "C\"q\"c", "D;e", "E'e", "Zz top", "a b", "a,b", "a-b", "a:b", "a#b", "b  c", "c\td",
 	"d\"e", "e(1)", "f=g", "g,\"h\"i", "h 1 h", "i.5e", "j*", "k%", "l&m", "m|n", "n\\o", "o{}", "p[]", "q<>r", "r?s", "s!t",
 	"é", "éa", "ñandú", "ж", "жа б", "хляб, бял", "яйце", "ω3", "水", "水 果", "果汁,甜", "🍞", "é",
+	"pizza: 12\" slice", "n #1\\2: x\ty",
 	"aaaaaaaaaaaaaaaaaaaaaaaaaaaaaaaaaaaaaaaaaaaaaaaaaaaaaaaaaaaa", "long name that does not fit in the column at all",
 }
 
